@@ -54,6 +54,14 @@ Theorem C10_last_style : forall st s, evs (set_style st s) = EStyle (sty (set_st
 Proof. exact last_style_set. Qed.
 Print Assumptions C10_last_style.
 
+(* Resize: both buffers report their renditions, then the cursor (which the resize may have
+   brought inside the new size) and the rendition of the screen that is shown are announced last *)
+Theorem C10_resize : forall w h t,
+  let t' := resize w h t in
+  exists l, tlog t' = EStyle (sty (active t')) :: ECursor (cx (active t')) (cy (active t')) :: l.
+Proof. exact resize_announces. Qed.
+Print Assumptions C10_resize.
+
 (* "rows scrolled off the top of the main screen are announced through ScrollLines before they are
    lost" is FALSE of the faithful model (and of the code: ScrollLines has no call site): a witness. *)
 Theorem C10_scrollback_refuted :
